@@ -447,6 +447,14 @@ func expandLocals(fd *ast.FuncDecl, at ast.Node, e ast.Expr, depth int) string {
 			as = append(as, expandLocals(fd, at, a, depth+1))
 		}
 		return exprString(x.Fun) + "(" + strings.Join(as, ", ") + ")"
+	case *ast.IndexExpr:
+		// moduliQ[0] with moduliQ := params.Q()
+		return expandLocals(fd, at, x.X, depth+1) + "[" + expandLocals(fd, at, x.Index, depth+1) + "]"
+	case *ast.SelectorExpr:
+		if _, isId := unparen(x.X).(*ast.Ident); isId {
+			return exprString(e) // a field or method of a named value: kept as written
+		}
+		return expandLocals(fd, at, x.X, depth+1) + "." + x.Sel.Name
 	}
 	return exprString(e)
 }
